@@ -9,6 +9,9 @@ func init() {
 	registerProperty(&Property{ID: "C13", Rules: []string{"LK-GUARD", "LK-COPY", "TB-DEEP"}, Decided: "deep copies.", NotDecided: "-"})
 	registerProperty(&Property{ID: "C12", Rules: []string{"LK-ORDER", "LK-SELF", "LK-PAIR", "LK-HOLD", "LK-TOKEN", "LK-FLAG"}, Decided: "lock order.", NotDecided: "-"})
 	registerProperty(&Property{ID: "C11", Rules: []string{"LK-ATOMIC", "LK-RMW", "LK-COPY", "TB-DEEP"}, Decided: "atomicity.", NotDecided: "-"})
-	registerProperty(&Property{ID: "C08", Rules: []string{"LK-CTA"}, Decided: "cta.", NotDecided: "-"})
+	registerProperty(&Property{ID: "C08", Rules: []string{"LK-CTA", "TS-RANGE", "TS-CANCEL", "TS-REFUSE"}, Decided: "cta.", NotDecided: "-"})
+	registerProperty(&Property{ID: "C01", Rules: []string{"TS-VERIFY"}, Decided: "x", NotDecided: "-"})
+	registerProperty(&Property{ID: "C02", Rules: []string{"TS-ACK"}, Decided: "x", NotDecided: "-"})
+	registerProperty(&Property{ID: "C14", Rules: []string{"TS-ROGUARD", "TB-ROUTE"}, Decided: "x", NotDecided: "-"})
 	registerProperty(&Property{ID: "C16", Rules: []string{"TB-RESERVED"}, Decided: "reserved names.", NotDecided: "-"})
 }
